@@ -37,8 +37,16 @@ class Dto:
         self.seen_type = type(payload).__name__
 
 
+class NotAsked:
+    """What the deserializer returns when it is asked for anything but Dto: a parameter without annotation, or
+    annotated Payload / CompositeMetadata, must never be run through it."""
+
+    def __init__(self, cls):
+        self.cls = repr(cls)
+
+
 def _deserializer(cls, payload):
-    return cls(payload) if cls is Dto else payload
+    return cls(payload) if cls is Dto else NotAsked(cls)
 ROUTES = ('a', 'b', 'zzz', 'empty-tags', 'no-routing-entry')
 AUTHS = ('none', 'rejected-simple', 'rejected-bearer', 'accepted-simple', 'accepted-bearer')
 POSITIONS = ('first', 'after-auth', 'after-custom', 'two-routing-entries', 'two-tags')
@@ -237,6 +245,9 @@ async def _run(rng, table, sigs, requests, link_kind):
             raise Exception('unsupported')
 
     link = links.make_link(link_kind, rng)
+    conn_errors = []
+    link.tap.listeners.append(lambda ev: conn_errors.append(ev[3].get('data')) if (
+        ev[1] == 's' and ev[2] == 'send' and ev[3].get('type') == 'ERROR' and ev[3].get('sid', 0) == 0) else None)
     server = RSocketServer(link.transports['s'], handler_factory=lambda: RoutingRequestHandler(
         router, verifier if table[2] else None))
 
@@ -278,15 +289,17 @@ async def _run(rng, table, sigs, requests, link_kind):
         data = b'data-%d' % i
         before = len(log)
         vbefore = len(verifier_calls)
+        ebefore = len(conn_errors)
         out = await call(req[0], md, data)
         ran = log[before:]
+        conn_err = [bytes(x or b'')[:60] for x in conn_errors[ebefore:]]
         # bystander
         bt = TYPES[i % 5]
         b2 = len(log)
         bout = await call(bt, composite(mk_route('bystander'), *by_auth), b'by')
         bran = [n for n, _ in log[b2:]]
         results.append({'req': req, 'out': out, 'ran': ran, 'md': bytes(md), 'data': data, 'bystander': (bt, bout, bran),
-                        'verifier_called': len(verifier_calls) > vbefore})
+                        'verifier_called': len(verifier_calls) > vbefore, 'connection_errors': conn_err})
     alive = None
     try:
         alive = all(getattr(server, n) is not None and not getattr(server, n).done()
@@ -312,6 +325,9 @@ def judge(table, names, results, alive, sigs=None):
                                                      ran=[n for n, _ in r['ran']])})
 
     for r in results:
+        if r.get('connection_errors'):
+            # "fails with an error on that request alone": an ERROR on stream 0 concerns the whole connection
+            bad('connection-level-error-for-one-request', r, errors=[repr(x) for x in r['connection_errors']])
         req = r['req']
         t = req[0]
         st['requests_dispatched'] += 1
